@@ -2750,8 +2750,8 @@ def check_C20(tier, seed):
     for k in range(0, klen + 1):
         for t in itertools.product(OPS, repeat=k): seqs.append(list(t))
     nex = len(seqs)
-    for _ in range(tier_n(tier, 3000, 80000)):
-        seqs.append([rng.choice(OPS + ['show:2', 'show:3', 'iter:2', 'eq:2:3', 'equal:2:3']) for _ in range(rng.choice([4, 6, 10, 20, 30]))])
+    for _ in range(tier_n(tier, 12000, 150000)):
+        seqs.append([rng.choice(OPS + ['show:2', 'show:3', 'iter:2', 'eq:2:3', 'equal:2:3']) for _ in range(rng.choice([4, 6, 10, 20, 30, 45]))])
     # minimised failures of earlier runs: they run in every tier
     seqs += [s.split() for s in API_CORPUS]
     per = 50
